@@ -36,6 +36,8 @@ type ccall struct {
 	Prog []node `json:"prog"`
 	Eid  int    `json:"eid"`
 	Text string `json:"text"`
+	// Style says how the specification rendered the program (emit | concat | bare); echoed to the judge.
+	Style string `json:"style"`
 }
 
 type cal struct {
